@@ -408,7 +408,9 @@ def events(fn, summ):
             f = t['f']
             name = '<fnptr>' if 'ptr' in f else f.get('name')
             if name and name not in NOISE_CALLS:
-                out.append((b, 'c:' + name))
+                # the call together with what it is applied to: `empty(self.remaining_input)` under the entry-error condition and
+                # under the header-error condition are different rows (as sets of bare names they would collapse into one)
+                out.append((b, 'c:%s(%s)' % (name, ' ; '.join(_fmt(leaves(fn, a_, 6)) for a_ in t['a']))))
             d = t['d']
             if len(d) > 1:
                 base, names = summ.root_of(fn, d)
